@@ -81,6 +81,9 @@ class SimStream(io.StringIO):
     def write(self, msg):
         self.n_writes += 1
         if self.ascii_only and isinstance(msg, str) and not msg.isascii():
+            if S_in_part():
+                self.fired.append(('ascii', 'UnicodeEncodeError'))
+                LOG.add('fault', 'stream', 'ascii', 'UnicodeEncodeError')
             raise UnicodeEncodeError('ascii', msg, 0, 1, 'sim: ordinal not in range(128)')
         if self.armed and S_in_part():
             k = self.ordinal
